@@ -30,7 +30,9 @@ def _mixed_curve(rng):
 def cases(ctx):
     rng = ctx.rng
     for i in range(ctx.n(60, 1500)):
-        if i % 3 == 2:
+        if i % 6 == 5:
+            yield {"k": "mixed", "j": G.coincident_curve(rng), "num": "frac" if i % 4 == 1 else "float", "coincident": True}
+        elif i % 3 == 2:
             yield {"k": "mixed", "j": _mixed_curve(rng), "num": "frac" if i % 2 else "float"}
         else:
             vs = G.star_polygon(rng, R=rng.choice([5, 15]), den=rng.choice([1, 2, 8])) if i % 2 else G.lattice_polygon(rng, R=9)
@@ -156,6 +158,13 @@ def check(ctx, case):
         L = sum(math.hypot(float(b_[0] - a_[0]), float(b_[1] - a_[1])) for a_, b_ in G.poly_edges([s[0] for s in jx]))
         if abs(abs(ref["len"]) - L) > 1e-9 * max(1, L):
             fails.append(Fail(kind="O", what="|float(curve)| is not the length", impl=ref["len"], expected=L))
+    # the vertex list is what move/scale/rotate iterate over: a moved copy must be the moved curve
+    Jm = I.outcome(lambda: builds["ctrl"]().move((3, -2)))
+    if Jm[0] == "ok":
+        moved = I.jordan_data(Jm[1])
+        wantm = [[(p[0] + 3, p[1] - 2) for p in sg] for sg in (jx if exact else ref["segments"])]
+        if not U.jordan_same(moved, wantm, exact, rotate=False):
+            fails.append(Fail(kind="O", what="move() does not move every control point (vertex enumeration)", impl=str(moved)[:300]))
     # model
     if exact:
         rm = ctx.model.from_ctrlpoints(jd)
